@@ -6,10 +6,8 @@ export GOFLAGS=-mod=mod GOPROXY=off GOTOOLCHAIN=local GOSUMDB=off
 mkdir -p build out evidence lean/Interceptor/Audit lean/Interceptor/Gen
 cp /repo/go.sum harness/go.sum
 (cd harness && go1.26 test -c -tags verif -o ../build/harness.test ./corr && rm -f ../build/harness.test)
-if [ -d harness/extract ]; then
-  (cd harness && go1.26 build -o ../build/extract ./extract)
-  for f in $(cat facts.list 2>/dev/null); do ./build/extract -repo /repo -fact "$f" -out "lean/Interceptor/Gen/$f.lean"; done
-fi
+(cd extract && go1.26 build -o ../build/extract .)
+for f in $(cat facts.list 2>/dev/null); do ./build/extract -repo /repo -fact "$f" -out "lean/Interceptor/Gen/$f.lean"; done
 python3 genroot.py
 (cd lean && lake build Interceptor driver)
 echo setup ok
